@@ -129,6 +129,9 @@ def run(ctx):
     okc = bool(colon) and any(c.strip().k == 'bin' and c.strip().op == '==' and c.strip().args[1].const == ord('.') and t is True for c, t in mainf.guards(colon[0]) or [])
     r1.check(bool(qc and cl and cp) and mainf.dominates(cp[0], cl[0]) and mainf.dominates(cl[0], qc[0]) and okc and not mainf.can_reach(mainf.pos[qc[0].id][0], mainf.pos[colon[0].id][0]),
              'search-key=lower-cased-extension-with-dots-as-colons', mainf.unit + ':main', 'safeext must be ext, lower-cased, "." replaced by ":" before qmesearch')
+    from rules import libtab
+    for inst, v in sorted(libtab.case_lowerb_sites(db, rep, prog).items()):
+        r1.check(v[0], inst, v[1], v[2], v[3])
     r1.expect_min(8)
     rep.exhaustive_rules.append('C13.1-search-order')
 
